@@ -92,7 +92,7 @@ def synth_args(name, fn, variant, rnd):
             import datetime
             args.append(datetime.datetime.utcfromtimestamp(fsops.MT_BASE + 9))
         elif p.default is not inspect.Parameter.empty:
-            break
+            args.append(p.default)          # keep going: later parameters (recreate, ...) matter
         elif n in ("accessed", "modified"):
             args.append(None)
         else:
